@@ -22,6 +22,8 @@ struct S {
     path: Path,
     mailbox: Mailbox,
     with_restart: bool,
+    /// a backlog of non-waiting traffic is queued (behind a slow message) before the probes
+    burst: bool,
 }
 
 const M_UPWS: u32 = 11;
@@ -63,6 +65,9 @@ impl Scene for S {
             (M_RESTART, Action::Restart),
             (M_STOP, Action::Stop),
         ];
+        if self.burst {
+            r.work.push((30, crate::world::Work { sleep: 1, ..Default::default() }));
+        }
         vec![r]
     }
 
@@ -113,15 +118,19 @@ impl Scene for S {
         }
         // a second client holds one more plain address for a while and drops it concurrently
         let extra = Handles::with_addr(base);
-        let mut ops = vec![
-            Op::Sleep(5),
+        let mut ops = vec![Op::Sleep(5)];
+        if self.burst {
+            // one slow message, then more forced messages than any small bound has room for
+            ops.extend([Op::ForceSend(H::WSnd(0), 30), Op::ForceSend(H::WSnd(0), 31), Op::ForceSend(H::WSnd(0), 32), Op::ForceSend(H::WSnd(0), 33), Op::ForceSend(H::WSnd(0), 34)]);
+        }
+        ops.extend([
             Op::UpgradeProbe(H::WAddr(0)),
             Op::UpgradeProbe(H::WSnd(0)),
             Op::UpgradeProbe(H::WCal(0)),
             self.submit(M_UPWS),
             self.submit(M_UPWA),
             self.submit(M_UPWC),
-        ];
+        ]);
         if self.with_restart {
             ops.push(self.submit(M_RESTART));
             ops.push(Op::Sleep(5));
@@ -236,12 +245,15 @@ fn cases(tier: Tier) -> Vec<Case> {
         let subset = [mask & 1 != 0, mask & 2 != 0, mask & 4 != 0, mask & 8 != 0];
         for path in [Path::Direct, Path::ViaWeakUpgrade, Path::CloneOfKind] {
             for &mailbox in mbs {
-                for with_restart in [false, true] {
+                for (with_restart, burst) in [(false, false), (true, false), (false, true)] {
+                    if burst && path != Path::Direct {
+                        continue;
+                    }
                     v.push(Case {
-                        desc: format!("strong-kinds subset={} path={:?} mailbox={} restart={}", subset_name(&subset), path, mailbox.name(), with_restart),
+                        desc: format!("strong-kinds subset={} path={:?} mailbox={} restart={} burst={}", subset_name(&subset), path, mailbox.name(), with_restart, burst),
                         exec: ExecCfg { horizon: 30, max_early_fires: if tier == Tier::Thorough { 1 } else { 0 }, ..ExecCfg::default() },
                         bound: None,
-                        scene: Box::new(S { subset, path, mailbox, with_restart }),
+                        scene: Box::new(S { subset, path, mailbox, with_restart, burst }),
                     });
                 }
             }
